@@ -1198,7 +1198,7 @@ fn read_key_flag(cur: &mut SourceCursor, _song: &mut Song) -> Token {
         }
         // number
         if cur.is_numeric() {
-            let v = cur.get_int(0) * plus_minus;
+            let v = cur.get_int(0).wrapping_mul(plus_minus);
             if key_flag_index_a.len() <= idx { continue; }
             key_flag[key_flag_index_a[idx]] = v;
             idx += 1;
